@@ -196,6 +196,10 @@ fn check(c: &Case, st: &mut Stats) -> Result<(), String> {
     let mut a = new_simple_dec(4, 0, &bufs, TableManager { mask });
     let mut b = new_simple_dec(4, 0, &bufs, TableManager { mask });
     let mut nontrivial = false;
+    st.class_if(c.free_bufs == 0, "receiver-without-storage");
+    st.class_if(c.storage < 100, "receiver-storage-too-small");
+    st.class_if(!c.know_mand, "receiver-knows-no-mandatory-id");
+    st.class_if(c.items.iter().enumerate().any(|(i, (brk, it))| (i == 0 || *brk) && matches!(it, Item::Complete { lab: Lab::ReUse, .. } | Item::Start { lab: Lab::ReUse, .. })), "explicit-re-use-at-frame-start");
     if let Some(g) = &c.garbage {
         // outcome of a packet must not depend on what follows it
         st.class("garbage-after-first-packet");
@@ -306,7 +310,7 @@ pub fn property() -> Property {
             fuzz_decode: Some(crate::fuzzdec::c10_case),
             strategy,
             check,
-            required_classes: &["completed", "fragmented", "padding", "rej-crc", "rej-unknown-frag-id", "rej-no-storage", "rej-oversize", "rej-unknown-mandatory", "rej-unresolvable-reuse", "signalling/final-mandatory", "pdu<=2-bytes", "garbage-after-first-packet", "orphan-fragment"],
+            required_classes: &["completed", "fragmented", "padding", "end-with-bad-crc", "orphan-fragment", "receiver-without-storage", "receiver-storage-too-small", "receiver-knows-no-mandatory-id", "explicit-re-use-at-frame-start", "signalling/final-mandatory", "pdu<=2-bytes", "garbage-after-first-packet"],
         })],
     }
 }
